@@ -194,7 +194,7 @@ func (fg *FG) call0(st *State, cc *ssa.CallCommon, in ssa.Instruction, resultOf 
 		} else if cc.IsInvoke() && cc.Method.Pkg() != nil {
 			ppath = cc.Method.Pkg().Path()
 		}
-		if ppath != "" && fg.g.ct.TrustFrame[ppath] && !(callee != nil && fg.g.inRepo(callee)) {
+		if ppath != "" && fg.c != nil && fg.g.ct.TrustFrame[fg.c.Pkg+"|"+ppath] && !(callee != nil && fg.g.inRepo(callee)) {
 			c = &Contract{Kind: "func", Key: ckey, Assumed: true, ModGiven: true, FuncTypes: map[string]string{}, Loops: map[int][]Clause{}, Steps: map[int][]Clause{}, Pkg: "", File: "trustframe " + ppath}
 			fg.usedAssumed["trustframe:"+ckey] = true
 		}
